@@ -715,7 +715,9 @@ func c09Scopes(c *Ctx, ociV *ssa.Function) {
 	m := Mode{Kind: mErr}
 	wc, _ := w.constString("internal/trustpolicy", "Wildcard")
 	outer := findLoop(SC, func(d string) bool { return d == doc+".TrustPolicies" })
-	inner := findLoop(SC, func(d string) bool { return strings.HasPrefix(d, doc+".TrustPolicies[") && strings.HasSuffix(d, "].RegistryScopes") })
+	inner := findLoop(SC, func(d string) bool {
+		return strings.HasPrefix(d, doc+".TrustPolicies[") && strings.HasSuffix(d, "].RegistryScopes")
+	})
 	uniq := findLoop(SC, func(d string) bool { return strings.HasPrefix(d, "makemap:map[string]int") })
 	if outer == nil || inner == nil || uniq == nil {
 		c.Bad("scope/loops", "scope rules: loops over statements, their scopes and the scope counts", w.FnPos(SC), fmt.Sprintf("statements=%v scopes=%v counts=%v", outer != nil, inner != nil, uniq != nil))
